@@ -1,10 +1,18 @@
 use crate::define::Result;
 use crate::error::Error;
 use crate::value::Value;
+#[cfg(not(feature = "verif_sim"))]
 use once_cell::sync::OnceCell;
+#[cfg(feature = "verif_sim")]
+use crate::verif_sync::OnceCell;
 use rust_decimal::Decimal;
 use std::collections::HashMap;
+#[cfg(not(feature = "verif_sim"))]
 use std::sync::{Arc, Mutex};
+#[cfg(feature = "verif_sim")]
+use crate::verif_sync::Mutex;
+#[cfg(feature = "verif_sim")]
+use std::sync::Arc;
 
 pub type InnerFunction = dyn Fn(Vec<Value>) -> Result<Value> + Send + Sync + 'static;
 
